@@ -23,7 +23,7 @@ VERIF = os.path.dirname(os.path.dirname(os.path.abspath(__file__)))
 PY = sys.executable
 
 TIERS = {
-    'C16': {'quick': {'runs': 2400, 'det': 48, 'sweeps': 13, 'max_seconds': 700},
+    'C16': {'quick': {'runs': 2400, 'det': 48, 'sweeps': 15, 'max_seconds': 700},
             'thorough': {'runs': 60000, 'det': 512, 'sweeps': 400, 'max_seconds': 5000}},
     'C17': {'quick': {'runs': 6000, 'det': 48, 'fresh': 40, 'max_seconds': 700},
             'thorough': {'runs': 400000, 'det': 512, 'fresh': 300, 'max_seconds': 5000}},
@@ -133,9 +133,9 @@ def _sweep(prop, tier, master, j, part):
         exhaustive = False
     mine = ks[part::SWEEP_PARTS]
     pairs = set()
-    for k in mine:
+    spec['plan'] = {'plan': 'one', 'a': 0, 'k': 0, 'order': [1]}
+    for k, res in ctx.run_sweep(spec, mine):
         spec['plan'] = {'plan': 'one', 'a': 0, 'k': k, 'order': [1]}
-        res = ctx.run_threads(spec)
         v = c16.judge(ctx, spec, res)
         if v is not None and v.get('kind') != 'history-dependence':
             from . import minimise
@@ -145,7 +145,7 @@ def _sweep(prop, tier, master, j, part):
                           'results': res2['results'], 'post': res2['post']}
         pairs.update(tuple(p) for p in res['switch_pairs'])
     return {'sweep': j, 'part': part, 'A': call_repr(spec['threads'][0][0], 70), 'B': call_repr(spec['threads'][1][0], 70),
-            'len_A': la, 'len_B': lb, 'kind': kind, 'warm_calls': len(spec['warm']), 'points': len(mine), 'of': len(ks),
+            'len_A': la, 'len_B': lb, 'kind': kind, 'warm_calls': len(spec['warm']), 'capacity_filler': (spec.get('bulk') or {}).get('n', 0), 'points': len(mine), 'of': len(ks),
             'exhaustive': exhaustive, 'pairs': sorted(pairs)}, None
 
 
@@ -448,14 +448,26 @@ def main(argv=None):
     ex = ProcessPoolExecutor(args.workers, mp_context=mpctx)
     try:
         futs = {}
+        sweep_futs = {}
+        fresh_fut_early = ex.submit(_fresh_batch, prop, tier, master, cfg['fresh']) if cfg.get('fresh') else None
+        sweep_tasks = [(j, part) for j in range(cfg.get('sweeps', 0) if prop == 'C16' else 0) for part in range(SWEEP_PARTS)]
+        # the first 48 chunks first (they carry the runs the determinism self-test repeats), then sampled runs
+        # and sweep slices interleaved, so that a wall budget cuts both proportionally
+        every = max(1, len(chunks) // max(1, len(sweep_tasks))) if sweep_tasks else 0
+        si = 0
         for ci, c in enumerate(chunks):
             futs[ex.submit(_chunk, prop, tier, master, c, ci < 4)] = c
-        sweep_futs = {}
-        if prop == 'C16':
-            for j in range(cfg.get('sweeps', 0)):
-                for part in range(SWEEP_PARTS):
-                    sweep_futs[ex.submit(_sweep, prop, tier, master, j, part)] = (j, part)
-        fresh_fut = ex.submit(_fresh_batch, prop, tier, master, cfg['fresh']) if cfg.get('fresh') else None
+            if sweep_tasks and ci >= 6 and (ci % every == 0):
+                for _ in range(max(1, len(sweep_tasks) // max(1, len(chunks))) if len(sweep_tasks) > len(chunks) else 1):
+                    if si < len(sweep_tasks):
+                        j, part = sweep_tasks[si]
+                        si += 1
+                        sweep_futs[ex.submit(_sweep, prop, tier, master, j, part)] = (j, part)
+        while si < len(sweep_tasks):
+            j, part = sweep_tasks[si]
+            si += 1
+            sweep_futs[ex.submit(_sweep, prop, tier, master, j, part)] = (j, part)
+        fresh_fut = fresh_fut_early
         allf = list(futs) + list(sweep_futs)
         for f in as_completed(allf):
             if f.cancelled():
